@@ -52,6 +52,10 @@ pub fn build_input_x(names: u8, prod: usize, dwarf: bool) -> Vec<u8> {
         // all subsections except memory and data names (which would name the removed entities)
         m.customs.push((12, "name".into(), names_payload(0, 0b011011111)));
     }
+    if names == 3 {
+        // nothing but a data segment is named
+        m.customs.push((12, "name".into(), names_payload(0, 0b100000000)));
+    }
     if names == 2 {
         m.customs.push((12, "name".into(), names_payload(0, 0b000000110)));
         m.customs.push((12, "name".into(), names_payload(0, 0b011011001)));
@@ -578,9 +582,9 @@ pub fn run(args: &Args) -> i32 {
         return finish(args, ev, v, &|c| recheck(c, &version));
     }
     let mut cases = vec![];
-    for with_names in [0u8, 1, 2] {
+    for with_names in [0u8, 1, 2, 3] {
         for prod in 0..producers_variants().len() {
-            if with_names == 2 && prod > 1 {
+            if with_names >= 2 && prod > 1 {
                 continue;
             }
             for dwarf_in in [false, true] {
